@@ -386,3 +386,19 @@ def prepare(ctx, props, exe_name, repo_srcs, harness_srcs, **kw):
     if exe is None:
         ctx.broken.append(('obligation:build', msg))
     return exe
+
+
+def replay_ops(ctx, area, exe, path):
+    """Generic --replay: re-run the op lines stored in a replay file through implementation and model, print both."""
+    d = json.load(open(path))
+    r = d.get('replay', {})
+    ops = r.get('ops') or ([r['op']] if 'op' in r else [])
+    if not ops:
+        print('replay file names no ops (obligation-level finding): ' + json.dumps(d.get('broken', d), indent=1)[:2000])
+        return [], [], ops
+    il, ml, err = both(ctx, area, exe, ops)
+    for i, o in enumerate(ops):
+        print('op    : %s\nimpl  : %s\nmodel : %s' % (o, il[i] if i < len(il) else 'MISSING', ml[i] if i < len(ml) else 'MISSING'))
+    if 'expected' in r:
+        print('expected (property): %s' % r['expected'])
+    return il, ml, ops
